@@ -34,6 +34,8 @@ type Solver struct {
 	buf       strings.Builder
 	TimeoutMs int
 	pendingPops int
+	ResetAfter  int
+	Resets      int
 	guards      map[int32]bool
 	depth       int
 	scoped      [][]int32  // term ids defined at each push level
@@ -76,7 +78,7 @@ func NewSolver(tb *TB, kind string, timeoutMs int) (*Solver, error) {
 		return nil, err
 	}
 	s := &Solver{tb: tb, cmd: cmd, in: in, out: bufio.NewReaderSize(outp, 1<<16), funs: map[string]bool{},
-		cache: map[[2]int32]Result{}, Kind: kind, TimeoutMs: timeoutMs, guards: map[int32]bool{}}
+		cache: map[[2]int32]Result{}, Kind: kind, TimeoutMs: timeoutMs, guards: map[int32]bool{}, ResetAfter: 100}
 	if lf := os.Getenv("GOSYM_SMTLOG"); lf != "" {
 		if f, err := os.Create(lf); err == nil {
 			s.Log = f
@@ -344,6 +346,15 @@ func (s *Solver) check(a, b *Term, keep bool) (Result, error) {
 		return ResUnknown, s.Err
 	}
 	start := time.Now()
+	if len(s.guards) > s.ResetAfter {
+		// the context has accumulated many inactive guarded conjuncts: start afresh (definitions are re-emitted on demand)
+		s.send("(reset)\n")
+		s.emitted = s.emitted[:0]
+		s.funs = map[string]bool{}
+		s.guards = map[int32]bool{}
+		s.send(fmt.Sprintf("(set-option :timeout %d)\n(set-option :model.completion true)\n", s.TimeoutMs))
+		s.Resets++
+	}
 	seen := map[int32]bool{}
 	conj := flattenAnd(a, nil, seen)
 	conj = flattenAnd(b, conj, seen)
